@@ -117,8 +117,15 @@ func (u *Universe) sortOf(t types.Type) string {
 	case *types.Struct:
 		return u.structSort(t)
 	case *types.Array:
-		// arrays by value are not modelled as SMT values (they live in the element heap)
-		return ""
+		// array values (range over an array, array-typed locals): SMT arrays of scalar leaves
+		if _, isStruct := x.Elem().Underlying().(*types.Struct); isStruct {
+			return ""
+		}
+		es := u.sortOf(x.Elem())
+		if es == "" || strings.HasPrefix(es, "(Array") {
+			return ""
+		}
+		return "(Array Int " + es + ")"
 	case *types.Tuple:
 		return ""
 	}
@@ -471,7 +478,7 @@ func (u *Universe) Prelude() string {
 (declare-fun strlt (Int Int) Bool)
 (declare-fun strat (Int Int) Int)
 (declare-fun strsub (Int Int Int) Int)
-(assert (forall ((s Int)) (! (>= (strlen s) 0) :pattern ((strlen s)))))
+(assert (forall ((s Int)) (! (and (>= (strlen s) 0) (<= (strlen s) 1152921504606846975)) :pattern ((strlen s)))))
 ; uninterpreted functions of the standard-library stub contracts (DESIGN 2.2)
 `)
 	for _, d := range StubFuns {
